@@ -88,3 +88,36 @@ func H_shell_unterminated() {
 	nd_assert(err != nil && got == nil, "C17.shell.unterminated")
 	nd_reach("C17.shell.unterminated")
 }
+
+// plainArg: a non-empty argument that needs no quoting: no white space
+// (unicode.IsSpace over the rune range of ndArg), no quote, no backslash.
+func plainArg(name string, n int) string {
+	var b []byte
+	for i := 0; i < n; i++ {
+		if i > 0 && !nd_bool(name+".more") {
+			break
+		}
+		r := nd_rune(name + ".r")
+		nd_assume((r > 0x20 && r <= 0xFF && r != 0x7F) || r == 0x4E2D)
+		nd_assume(r != 0x85 && r != 0xA0 && r != '"' && r != '\'' && r != '\\')
+		b = utf8.AppendRune(b, r)
+	}
+	return string(b)
+}
+
+// H_shell_plain: unquoted arguments separated by a blank, a tab or U+00A0 come
+// back as they went in (a multi-byte rune is never split at one of its bytes)
+func H_shell_plain() {
+	a := plainArg("a", 2)
+	b := plainArg("b", 2)
+	sep := " "
+	switch nd_int("sep") {
+	case 1:
+		sep = "\t"
+	case 2:
+		sep = " "
+	}
+	got, err := Parse(a + sep + b)
+	nd_assert(sameArgs(got, err, a, b), "C17.shell.plain")
+	nd_reach("C17.shell.plain")
+}
